@@ -7,6 +7,13 @@ PY = "/venv/bin/python"
 
 # property id -> (design section, technique, level text, level note)
 BUILT = {
+    "C07": ("§4.7", "explicit-state search of the C01 product graph observing every Context.pop_tokens/primary match "
+            "(test-side wrappers); exhaustive insertion of unrecognisable fragments at every model-state representative",
+            "On every transition of the product graph the pops must tile the token list, start at column 1, end at "
+            "NEWLINE, equal the model's statement count and scope stack; every fragment x every representative x "
+            "{middle, last line with/without NL} must end in CParsingError when any token took the unrecognised path.",
+            "Trusts the statement counts/scope stack of mc/model/norm.py and the implementation's own notion of "
+            "'unrecognised' (a one-token pop without primary match)."),
     "C01": ("§4.1", "explicit-state breadth-first search of the product (reference model of conforming files x canonical "
             "dump of the real Context), every transition executed on the real pipeline; nested exhaustive "
             "enumeration of expressions/signatures/declarations/constants",
